@@ -1,6 +1,6 @@
 """The cobweb engine: model check, generate, replay, validate (TraceProps + TraceConf), verdict and evidence."""
 import json, os, subprocess, sys, time, hashlib, shutil
-from . import tlc, progs, configs
+from . import tlc, progs, configs, suite
 
 ROOT = os.path.dirname(os.path.dirname(os.path.abspath(__file__)))
 # Development aid (mutant sweeps on scratch worktrees, in parallel, without touching /repo): VERIF_REPO names another checkout
@@ -30,7 +30,7 @@ class ToolError(Exception):
 def log(*a):
     print(*a, flush=True)
 
-def build_harness():
+def build_harness(suite_too=False):
     """Rebuild the harness (and with it bevy_cobweb from /repo's working tree, hooks on)."""
     t0 = time.time()
     env = dict(os.environ, CARGO_NET_OFFLINE="true")
@@ -47,6 +47,10 @@ def build_harness():
     if p.returncode != 0:
         tail = "\n".join(p.stdout.splitlines()[-40:])
         raise ToolError("harness build failed (does /repo still compile with --cfg cobweb_verif?)\n" + tail)
+    if suite_too:
+        ok, tail = suite.build(REPO, os.path.join(HARNESS, "target", "suite"))
+        if not ok:
+            raise ToolError("the repository's tests do not build with --cfg cobweb_verif:\n" + tail)
     return time.time() - t0
 
 def known_findings():
@@ -378,6 +382,19 @@ def check_property(prop, tier, seed):
         cov["transitions"] += eres.generated
         if not eres.complete:
             cov["exhaustive"] = False
+    # (e) the repository's own test suite, run with the hooks on: every trace judged by the runner-protocol monitor
+    if prop in suite.PROPS:
+        try:
+            sr = suite.run(REPO, os.path.join(HARNESS, "target", "suite"), wd)
+        except RuntimeError as ex:
+            raise ToolError(str(ex))
+        mine = [v for v in sr["violations"] if v["p"] == prop]
+        cov["test_suite"] = dict(tests_passed=sr["tests_passed"], tests_failed=sr["tests_failed"], traces=sr["traces"], records=sr["records"],
+                                 violations=len(mine), sample=sr["sample"], wall_s=sr["wall_s"])
+        cov["records_validated"] += sr["records"]
+        cov["traces_validated_against_impl"] += sr["traces"] - len({v["id"] for v in mine})
+        for v in mine:
+            violations.append((v, dict(id=v["id"], program=dict(kind="suite", test=v["id"], line=v["l"]))))
     # verdict
     rc = 0
     for k in knownhits.values():
@@ -419,6 +436,12 @@ def replay_file(path):
     wd = os.path.join(WORK, "replay")
     shutil.rmtree(wd, ignore_errors=True)
     os.makedirs(wd)
+    if body["program"].get("kind") == "suite":
+        sr = suite.run(REPO, os.path.join(HARNESS, "target", "suite"), wd)
+        hits = [v for v in sr["violations"] if v["id"] == body["program"]["test"]]
+        for v in hits:
+            log("MONITOR property=%s why=%s test=%s at record %d" % (v["p"], v["why"], v["id"], v["l"]))
+        return 1 if [v for v in hits if v["p"] == body.get("property", v["p"])] else 0
     p = dict(body["program"])
     p["id"] = body.get("id", "replay")
     obs = harness_replay([p], wd, "replay")
